@@ -563,7 +563,22 @@ func (x *Exec) dynamicCall(st *State, fr *Frame, site ssa.Instruction, cc *ssa.C
 		dc = x.cs.Funcs[key]
 	}
 	if dc == nil {
-		engineErr("dynamic call of %s in %s: no contract (%s)", name, fr.fn, key)
+		// a function type without a contract (typically one introduced by a change, e.g. a new
+		// functional option): the call is an event that may do anything - what the surrounding
+		// contract needs then fails as a named obligation instead of the function being undecided
+		dk := "default-functype:" + typeKey(cc.Value.Type())
+		dc = x.cs.Funcs[dk]
+		if dc == nil {
+			dc = &Contract{Key: dk, Short: typeKey(cc.Value.Type()), Assumed: true, Event: true, Modifies: []string{"all"},
+				Loops: map[int]*LoopSpec{}, PureParams: map[string]bool{}}
+			mp := Clause{Src: "true", Label: ""}
+			if e, err := parser.ParseExpr("true"); err == nil {
+				mp.Expr = e
+				dc.MayPanic = &mp
+			}
+			x.cs.Funcs[dk] = dc
+		}
+		key = dk
 	}
 	x.used[key] = true
 	env := &CEnv{x: x, st: st, vars: map[string]*Val{"recv": fnv}, pkg: dc.Pkg, contract: dc}
